@@ -446,7 +446,12 @@ func (r *renderer) stmt(s Stmt) {
 		r.t("if", "(")
 		r.inner(x.Cond)
 		r.t(")")
-		r.stmt(x.Then)
+		if x.Else != nil && danglingIf(x.Then) {
+			// without braces the else would bind to the inner if
+			r.block(&Block{[]Stmt{x.Then}})
+		} else {
+			r.stmt(x.Then)
+		}
 		if x.Else != nil {
 			if _, isBlock := x.Then.(*Block); !isBlock {
 				r.sep()
@@ -488,6 +493,24 @@ func (r *renderer) stmt(s Stmt) {
 	default:
 		panic("refsem: cannot render statement")
 	}
+}
+
+// danglingIf: would an else written after s attach to an if inside s?
+func danglingIf(s Stmt) bool {
+	switch x := s.(type) {
+	case *If:
+		if x.Else == nil {
+			return true
+		}
+		return danglingIf(x.Else)
+	case *While:
+		return danglingIf(x.Body)
+	case *For:
+		return danglingIf(x.Body)
+	case *ForIn:
+		return danglingIf(x.Body)
+	}
+	return false
 }
 
 func (r *renderer) program(p *Program) {
